@@ -54,9 +54,13 @@ func main() {
 		delivered := map[int]bool{}
 		prevMain := []int{0}
 		poisoned := false // a failed switch happened and the node has not recovered yet
+		aborted := false  // some delivery of a new, sane block ended with the error of one of its orphans
 		nontrivial := false
 		key := ""
 		for _, o := range obs {
+			if o.Err && !o.Orphan && !delivered[o.Blk] && h.Sane(o.Blk) {
+				aborted = true
+			}
 			delivered[o.Blk] = true
 			key += fmt.Sprintf("%d:%v%v%v:%v|", o.Blk, o.InMain, o.Orphan, o.Err, o.Main)
 			if o.Orphan || o.Err || len(o.Detached) > 0 {
@@ -117,7 +121,7 @@ func main() {
 					}
 				}
 				sig := "C12:heavier-valid-chain-known"
-				if stuck {
+				if stuck && aborted {
 					sig = sigStuckOrphan
 				} else if poisoned {
 					sig = sigFailedSwitch
